@@ -53,7 +53,7 @@ class Prop(PoolProp):
     focus = "storage"
     model_name = "storage"
     anchors = ["windpyutils/parallel/storage.py"]
-    quick_runs = 150
+    quick_runs = 400
     thorough_runs = 2500
     rule = ("2-4 simulated processes with their own fork-style copy of one storage: writers with disjoint, gapped, reversed "
             "or clashing identifiers (pre-sized index in a third of the runs; in half of the runs written data is invisible "
@@ -143,7 +143,9 @@ class Prop(PoolProp):
                     for _ in range(rng.choice([1, 1, 2])):
                         sc.insert(rng.randint(1, len(sc)), ["exit"])
         scripts.append([["iter"], ["len"], ["contig"]] + [["read", g] for g in sorted(set(ids))[:4]])
-        return SCfg(rng.choice([0, 0, max(ids) + 1]), scripts, buffered=rng.random() < 0.5)
+        # number_of_data: none, exactly enough, more than ever stored (the index stays longer than the stored ids), too small
+        presize = rng.choice([0, 0, max(ids) + 1, max(ids) + 1 + rng.randint(1, 3), rng.randint(1, max(ids) + 1)])
+        return SCfg(presize, scripts, buffered=rng.random() < 0.5)
 
     def gen_chooser(self, rng):
         r = rng.random()
